@@ -35,6 +35,19 @@ def replay(prop, path):
     replay_path = path
     with open(path) as f:
         rec = json.load(f)
+    if rec.get("replay_kind") == "runtime-build":
+        tier, seed, group, prof, case = rec["tier"], rec["seed"], rec["group"], rec["profile"], rec["case"]
+        with build.Lock():
+            build.snapshot()
+            ws = build.Workspace(tier, seed)
+            ws.generate([group])
+            dropped = ws.build_resilient([group], prof)
+        hits = [d for d in dropped if d["case"] == case]
+        print("rebuilt group %s (%s): case %s %s" % (group, prof, case, "does not compile: %s" % hits[0]["message"][:200] if hits else "compiles"))
+        if hits:
+            print("VIOLATION property=%s replay=%s" % (prop, replay_path))
+            return 1
+        return 0
     if rec.get("replay_kind") == "runtime":
         tier, seed, group, prof, case = rec["tier"], rec["seed"], rec["group"], rec["profile"], rec["case"]
         with build.Lock():
